@@ -52,6 +52,8 @@ func phaseStack(r *vk.Run) {
 	var mu sync.Mutex
 	msgs, short := 0, 0
 	outcomes := map[string]int{}
+	var agg violAgg
+	defer agg.flush(r)
 	st := r.ExploreDeviations(bound, func(ch *vk.Chooser) {
 		si := ch.Choose(zero)
 		sc := scen[si]
@@ -87,9 +89,6 @@ func phaseStack(r *vk.Run) {
 		mu.Unlock()
 		if in.viol[0] != "" {
 			key := in.viol[0]
-			if in.feedTo.short > 0 {
-				key += ":after-short-read"
-			}
 			var names []string
 			for _, e := range sc.script {
 				if e.kind == evBatchReal {
@@ -98,7 +97,7 @@ func phaseStack(r *vk.Run) {
 					names = append(names, sc.cfg.evName(e))
 				}
 			}
-			r.Violation(key, in.viol[1], map[string]interface{}{"part": "stack", "config": sc.cfg.name, "scenario": sc.name, "events": names, "short_reads": in.feedTo.devlog, "choices": append([]int{}, ch.Choices...)})
+			agg.add(key, in.viol[1], map[string]interface{}{"part": "stack", "config": sc.cfg.name, "scenario": sc.name, "events": names, "short_reads": in.feedTo.devlog, "choices": append([]int{}, ch.Choices...)}, in.feedTo.short, si)
 		}
 	})
 	if st.Capped {
